@@ -164,8 +164,13 @@ ListNow(o, u, lst) == IF lst # None THEN Get(lst) ELSE IF u.query = None THEN <<
 DecodeEncodeB(b, S) == EncodeBytes(S, RepeatedDecode(b))
 
 (* the result: [u, asked] ; asked = TRUE when a non-trivial domain would need the IDNA oracle (no prediction) *)
-CanonSteps(pr, u0) ==
-  LET doHost == pr.repeated /\ Hostname(u0) # <<>>
+CanonSteps(pr, uin) ==
+  (* the removals come FIRST (fix F27): the host setter refuses to empty a host while credentials or a port are present, so decoding the
+     host before they were removed produced a result that a second canonicalization changed again *)
+  LET ua == IF pr.removePort THEN SetPortO(pr.opts, uin, <<>>) ELSE uin
+      ub == IF pr.removeUserInfo THEN SetPassword(SetUsername(ua, <<>>), <<>>) ELSE ua
+      u0 == IF pr.removeFragment THEN SetHashO(pr.opts, ub, <<>>) ELSE ub
+      doHost == pr.repeated /\ Hostname(u0) # <<>>
       hostStep == IF doHost THEN ParseOvO(DecodeEncode(Hostname(u0), SetHostPE), u0, "hostname", None, pr.opts) ELSE [u |-> u0, asked |-> None]
       u1 == hostStep.u
       u2 == IF pr.repeated /\ SerPath(u1) # <<>> THEN SetPathnameO(pr.opts, u1, DecodeEncode(SerPath(u1), LaxPathSet)) ELSE u1
@@ -176,11 +181,8 @@ CanonSteps(pr, u0) ==
       u3 == IF doIter THEN WriteBack(pr, u2, Get(l3)) ELSE u2
       u4 == IF ~pr.repeated THEN u3
             ELSE IF Hash(u3) # <<>> THEN SetHashO(pr.opts, u3, DecodeEncode(Fragment(u3), SetHostPE)) ELSE SetHashO(pr.opts, u3, <<>>)
-      u5 == IF pr.removePort THEN SetPortO(pr.opts, u4, <<>>) ELSE u4
-      u6 == IF pr.removeUserInfo THEN SetPassword(SetUsername(u5, <<>>), <<>>) ELSE u5
-      u7 == IF pr.removeFragment THEN SetHashO(pr.opts, u6, <<>>) ELSE u6
-      u8 == IF pr.sort = "keys" THEN WriteBack(pr, u7, SortByName(ListNow(pr.opts, u7, l3)))
-            ELSE IF pr.sort = "param" THEN WriteBack(pr, u7, SortByBoth(ListNow(pr.opts, u7, l3))) ELSE u7
+      u8 == IF pr.sort = "keys" THEN WriteBack(pr, u4, SortByName(ListNow(pr.opts, u4, l3)))
+            ELSE IF pr.sort = "param" THEN WriteBack(pr, u4, SortByBoth(ListNow(pr.opts, u4, l3))) ELSE u4
   IN [u |-> u8, asked |-> hostStep.asked # None]
 HostStates == {"host", "hostname", "fileHost"}
 CanonRun(name, in) ==
